@@ -11,7 +11,7 @@ RULE = ('collections of 0..64 members from the C01 domain with duplicates, zero 
         'non-trivial = owned op result differs from its operands')
 TRUSTED = TRUSTED_COMMON + ['Vec / iterator adaptors (filter, map, cloned, collect, sum, max_by) are modelled by list filter / map / fold_left, not verified']
 ASSUMPTIONS = ASSUME_COMMON + ['select_cone uses libm cos and acos: its filter structure is proved for every libm; the numeric meaning of the predicate is decided by the mpmath reference within a 1e-7 rad band around the half-angle']
-S3_LEGS = ['cone predicate equals "unsigned angle <= half-angle" numerically: predicate cone_ref (band 1e-7 rad)']
+S3_LEGS = ["cone predicate: C17_cone_signed_cos shows it equals a comparison of signed cosines under cos_acc; its reading as 'unsigned angle <= half-angle' is decided numerically by predicate cone_ref (band 1e-7 rad)"]
 
 def members(P, r, n):
     regs = []
@@ -68,6 +68,13 @@ def one_case(r, nops, harvest=None):
             h = r.choice([-1.0, -0.0, 0.0, 1e-9, 0.5, fb.Q, fb.PI, fb.nxt(fb.PI, 1), 4.0, r.uniform(-1, 4), r.uniform(0, 3.2)])
             if harvest and r.chance(0.5):
                 h = r.choice(harvest)
+            if cur_regs and r.chance(0.45):
+                # boundary class: the axis is a member turned by a known angle th, the half-angle is th -+ a little
+                # (outside the predicate's 1e-7 band): decides <= against the true unsigned angle, small and large
+                th = r.choice([1e-3, 6e-3, 0.02, 0.03, 0.04, 0.0447, 0.1, 0.5, 1.0, 1.5, 2.0, 3.0, r.logu(1e-4, 3.1)])
+                src = r.choice(cur_regs)
+                axis = P.add('GRotate', src, P.add('ANew', P.f(th), P.f(fb.PI)) if r.chance(0.5) else P.add('ANewBlade', P.u(4 * r.choice([1, 250])), P.f(th), P.f(fb.PI)))
+                h = th + r.choice([-1e-5, -3e-6, -1e-6, -3e-7, 3e-7, 1e-6, 3e-6, 1e-5])
             res = P.add('CCone', cur, axis, P.f(h))
             preds.append(('cone_ref', [cur, axis, ['#', fb.bits(h)], res]))
             cur, cur_regs = res, None
